@@ -12,7 +12,9 @@ BUILD = os.path.join(VERIF, '.build')
 # Evidence and replay files under /verif describe /repo only.  A run pointed at a scratch copy
 # (VERIF_REPO=..., used by the mutation self-test) writes them under .build/scratch-out instead, so a
 # record of a deliberately broken tree can never end up in the committed evidence directory.
-OUT = VERIF if os.path.realpath(REPO) == '/repo' else os.path.join(BUILD, 'scratch-out')
+# (also when VERIF_SCRATCH_OUT=1: /repo itself carries a deliberately applied seeded change, tools/try_seed.sh)
+OUT = (VERIF if os.path.realpath(REPO) == '/repo' and not os.environ.get('VERIF_SCRATCH_OUT')
+       else os.path.join(BUILD, 'scratch-out'))
 GUARD = 'bytecodealliance_wit_bindgen_verif'
 NCPU = int(os.environ.get('VERIF_JOBS', '0')) or (os.cpu_count() or 4)
 
